@@ -390,7 +390,7 @@ class C04Util(Monitor):
             for a in tr.attach:
                 if a["node"] != n.id_number:
                     continue
-                ends = [d["t"] for d in tr.detach if d["node"] == n.id_number and d["server"] == a["server"] and d["ind"] == a["ind"] and d["event"] >= a["event"]]
+                ends = [d["t"] for d in tr.detach if d["node"] == n.id_number and d["server"] == a["server"] and d["ind"] == a["ind"] and d["seq"] > a["seq"]]
                 end = ends[0] if ends else T
                 num = num + (end - a["t"])
             den = Fraction(0)
